@@ -668,6 +668,39 @@ mod ffi {
 }
 '''
 
+SEED_TRAITS = '''\
+#[diplomat::bridge]
+mod ffi {
+    #[diplomat::opaque]
+    #[diplomat::attr(not(supports = "traits"), disable)]
+    pub struct Hub(u8);
+
+    pub trait Listener {
+        fn on_event(&self, code: u32) -> u32;
+        fn on_close(&self);
+    }
+
+    #[diplomat::opaque]
+    pub struct Runner(u8);
+
+    impl Hub {
+        pub fn listen(&self, l: impl Listener) -> u32 {
+            l.on_event(1)
+        }
+    }
+
+    impl Runner {
+        #[diplomat::attr(not(supports = "callbacks"), disable)]
+        pub fn apply(&self, f: impl Fn(u8) -> u8) -> u8 {
+            f(self.0)
+        }
+        pub fn plain(&self) -> u8 {
+            self.0
+        }
+    }
+}
+'''
+
 HAND_SEEDS = [
     ("basic", SEED_BASIC),
     ("two_modules", SEED_TWO_MODULES),
@@ -678,6 +711,7 @@ HAND_SEEDS = [
     ("tiny", SEED_TINY),
     ("attrimpl", SEED_ATTRIMPL),
     ("namespaces", SEED_NAMESPACES),
+    ("traits", SEED_TRAITS),
 ]
 
 # ------------------------------------------------------------------------------------------------------------------
@@ -1590,12 +1624,12 @@ FT_QUICK = {"perm_files": ("attrs.rs",), "insert_files": ("attrs.rs", "result.rs
 FT_FULL = {"nonbridge_files": ("lib.rs", "structs.rs", "attrs.rs")}
 
 PLAN = {
-    "quick": [("tiny", [FULL, PERMDEL]), ("attrimpl", [FULL]), ("namespaces", [PERMDEL]), ("basic", [FULL]), ("two_modules", [FULL]), ("cyclic", [FULL]),
+    "quick": [("tiny", [FULL, PERMDEL]), ("attrimpl", [FULL]), ("namespaces", [PERMDEL]), ("traits", [FULL]), ("basic", [FULL]), ("two_modules", [FULL]), ("cyclic", [FULL]),
               ("interleaved", [FULL]), ("results", [FULL]), ("strings", [FULL]), ("feature_tests", [FT_QUICK])],
     # cheapest / broadest first: if the wall cap cuts the run short, the largest hand seed and the depth-3 seed are what is missing
     "thorough": [("feature_tests", [FT_FULL]), ("basic", [FULL, REDUCED]), ("two_modules", [FULL, REDUCED]),
                  ("cyclic", [FULL, REDUCED]), ("results", [FULL, REDUCED]), ("strings", [FULL, REDUCED]),
-                 ("attrimpl", [FULL, REDUCED]), ("namespaces", [FULL]), ("tiny", [FULL, REDUCED, PERMDEL]), ("interleaved", [FULL, REDUCED])],
+                 ("attrimpl", [FULL, REDUCED]), ("namespaces", [FULL]), ("traits", [FULL, REDUCED]), ("tiny", [FULL, REDUCED, PERMDEL]), ("interleaved", [FULL, REDUCED])],
 }
 WALL_CAP = {"quick": 85, "thorough": 540}
 
